@@ -35,18 +35,22 @@ def packedLoop (result : UInt32) (shift : Nat) : Bytes → Option (UInt32 × Byt
       let result := result ||| ((b.toUInt32 &&& 0xFFFFFF7F) <<< shift.toUInt32)
       if b &&& 0x80 != 0 then packedLoop result (shift + 7) r else some (result, r)
 
+/-- the end of `read_packed_int`: `-(result as i32)` when bit 0 of the first byte is set
+(`-(i32::MIN)` overflows: panic), `result as i32` otherwise -/
+def packedFinish (b : UInt8) (result : UInt32) : Option Int :=
+  if b &&& 1 == 1 then
+    (if result == 0x80000000 then none else some (-(asI32 result)))
+  else some (asI32 result)
+
 /-- `read_packed_int`: bit 0 of the first byte is the sign, bits 1..6 the low six bits of the
-magnitude, bit 7 of every byte the continuation flag; `-(i32::MIN)` overflows (panic) -/
+magnitude, bit 7 of every byte the continuation flag -/
 def readPackedInt : Bytes → Option (Int × Bytes)
   | [] => none
   | b :: r =>
     let first : UInt32 := ((b &&& 0x7f) >>> 1).toUInt32
     match (if b &&& 0x80 != 0 then packedLoop first 6 r else some (first, r)) with
     | none => none
-    | some (result, r) =>
-      if b &&& 1 == 1 then
-        (if result == 0x80000000 then none else some (-(asI32 result), r))
-      else some (asI32 result, r)
+    | some (result, r) => (packedFinish b result).map (·, r)
 
 /-- `x as usize` used as an index / length: a negative value is a huge index and never in range -/
 def asIndex (n : Int) : Option Nat := if n < 0 then none else some n.toNat
